@@ -205,18 +205,27 @@ Proof.
 Qed.
 
 (* SGR mouse reports: button name and modifier set in the arithmetic of the protocol (low two bits =
-   button, +4 shift, +8 alt, +16 ctrl, +64 wheel; final `M` = press) *)
+   button, +4 shift, +8 alt, +16 ctrl, +64 wheel; final `M` = press).  A button has a name unless
+   bit 7 is set (buttons 8..11) or it is the horizontal wheel (codes 66 / 67 + modifiers): such a
+   report is unrecognised (second theorem), it is never given the name of another button. *)
 Theorem C02_mouse_protocol : forall data name mode row col,
   dec_mouse data = Ok (RSome (PMouse name mode row col)) ->
   exists body e rest last,
     mid data 3 1 = Ok body /\ numbers_decode body 59 = e :: (col + 1) :: (row + 1) :: rest /\
     index data (length data - 1) = Ok last /\
+    mouse_named e = true /\
     mode = (e / 4) mod 8 + (if last =? 77 then 256 else 0) /\
     name = (let button := e mod 4 in
             if N.testbit e 6
-            then (if button =? 0 then 4 else if button =? 1 then 5 else 3)
+            then (if button =? 0 then 4 else 5)
             else if button =? 3 then 3 else button).
 Proof. exact dec_mouse_protocol. Qed.
+
+Theorem C02_mouse_unnamed : forall data body e c r rest last,
+  mid data 3 1 = Ok body -> numbers_decode body 59 = e :: c :: r :: rest ->
+  index data (length data - 1) = Ok last ->
+  mouse_named e = false -> dec_mouse data = Ok RNone.
+Proof. exact dec_mouse_unnamed. Qed.
 
 (* unrecognised input surfaces as raw events whose bytes occur in the input in order: all spans,
    recognised or raw, followed by the pending bytes, are the input *)
